@@ -284,6 +284,48 @@ def _dem_loop_specs():
     return {(q, 1): mk(True), (q, 2): mk(False)}
 
 
+# a demand list built through its constructor (three entries: with / without pattern, with / without category) and queried: independent of how the
+# loop inside Demands.at is written (the prefix-sum proof above is for any number of entries but is tied to the loop's shape)
+
+def _build_and_query(reg, e0, e1, e2, t, cat, mult):
+    d = Demands(reg, e0, e1)
+    d.append(e2)
+    return d.at(t, cat, mult), len(d)
+
+
+def _demands_built_case(query):
+    def build(cx):
+        from wntr.network.base import Registry
+
+        class Reg(PatReg, Registry):
+            def __init__(self, table):
+                PatReg.__init__(self, table)
+                self.default_pattern = None
+        t, mult = cx.int("t"), cx.real("multiplier")
+        cx.assume(cx.t(t) >= 0)
+        b = [cx.real("base%d" % i) for i in range(3)]
+        n1, n2, c1, c2 = cx.name("pattern1"), cx.name("pattern2"), cx.name("category1"), cx.name("category2")
+        for x in (n1, n2, c1, c2):
+            cx.assume(cx.t(x) != name_const(""))
+        cx.assume(cx.t(n1) != cx.t(n2), cx.t(c1) != cx.t(c2))
+        pats = [cx.obj(Pattern, name=nm, _id=i + 1, _multipliers=[1.0], _time_options=None, wrap=True) for i, nm in enumerate((n1, n2))]
+        reg = Reg([(n1, pats[0]), (n2, pats[1])])
+        cat = {"all": None, "category1": c1, "category2": c2}[query]
+        cx.target(_build_and_query, reg, (b[0], n1, c1), (b[1], None, c2), (b[2], n2, None), t, cat, mult)
+
+        def post(out):
+            if not out.returned:
+                return []
+            total, n = out.value
+            T, M = cx.t(t), cx.t(mult)
+            v = [cx.t(b[0]) * PM2(1, T) * M, cx.t(b[1]) * M, cx.t(b[2]) * PM2(2, T) * M]
+            want = {"all": v[0] + v[1] + v[2], "category1": v[0], "category2": v[1]}[query]
+            return [("three_entries_held", n == 3),
+                    ("total_is_the_sum_over_the_matching_entries_of_base_times_pattern_multiplier_times_demand_multiplier", library.as_real(total) == want)]
+        cx.ensure(post)
+    return Case("three_entries,query=%s" % query, build, crosscheck=False)
+
+
 # ------------------------------------------------------------------------------------------------
 # expected_demand_param / demand_var: value for junction n == Demands.at(sim_time + pattern_start, multiplier)
 
@@ -400,6 +442,9 @@ CONTRACTS = [
              models=amlmodel.build_models, trusted=["aml.Param(v) is a box holding v (DESIGN 2.5)", "TimeSeries.at (this file)"]),
     Contract("wntr.network.elements:Pattern.at", P, _pattern_cases + [_pattern_no_timeopts_case()],
              note="times and the pattern timestep are integers (seconds)"),
+    Contract("wntr.network.elements:Demands built through its constructor, then at()", P, [_demands_built_case(q_) for q_ in ("all", "category1", "category2")],
+             models=_ts_history_models, interpret_always=(_build_and_query, Demands, TimeSeries),
+             note="three entries with symbolic base values; complements the prefix-sum contract of Demands.at (any number of entries, tied to the loop's shape)"),
     Contract("wntr.network.elements:TimeSeries.__init__/at/pattern_name/base_value over its life", P + ["C11"], [_timeseries_history_case()], models=_ts_history_models,
              interpret_always=(_make_and_use, TimeSeries)),
     Contract("wntr.network.elements:TimeSeries.at", P, [_timeseries_case(True), _timeseries_case(False)], models=_ts_models,
